@@ -87,15 +87,12 @@ impl Cache {
         ensures r is Ok ==> final(self)@ == old(self)@.remove((tpe, *id)), r is Err ==> final(self)@ == old(self)@,
                 old(self).healthy@ ==> r is Ok, final(self).healthy@ == old(self).healthy@,
     { unimplemented!() }
-    // removes every cached file of this type that is not in `list` with exactly its size
+    // directory walk of <cache>/<type dir>: ids and sizes of the cached files of this type
     #[verifier::external_body]
-    pub fn remove_not_in_list(&mut self, tpe: FileType, list: &Vec<(Id, u32)>) -> (r: RusticResult<()>)
-        ensures
-            forall|k: Key| #[trigger] final(self)@.dom().contains(k) ==> old(self)@.dom().contains(k) && final(self)@[k] == old(self)@[k],
-            forall|k: Key| k.0 != tpe && #[trigger] old(self)@.dom().contains(k) ==> final(self)@.dom().contains(k),
-            r is Ok ==> forall|id: Id| #[trigger] final(self)@.dom().contains((tpe, id)) ==> list@.contains((id, final(self)@[(tpe, id)].len() as u32)),
-            // `healthy` = the cache directory's file-system operations succeed (the wrapper swallows their errors)
-            old(self).healthy@ ==> r is Ok, final(self).healthy@ == old(self).healthy@,
+    pub fn list_with_size(&self, tpe: FileType) -> (r: RusticResult<VSizeMap>)
+        ensures r matches Ok(m) ==> forall|id: Id| #![trigger m@.dom().contains(id)] (m@.dom().contains(id) <==> self@.dom().contains((tpe, id)))
+                    && (m@.dom().contains(id) ==> m@[id] == self@[(tpe, id)].len() as u32),
+            self.healthy@ ==> r is Ok,
     { unimplemented!() }
 }
 pub struct CachedBackend { pub be: VBackend, pub cache: Cache }
@@ -107,4 +104,20 @@ impl CachedBackend {
         &&& forall|k: Key| #[trigger] self.cache@.dom().contains(k) ==> self.cache@[k] == CONTENT(k)
         &&& forall|k: Key| #[trigger] self.be@.dom().contains(k) ==> self.be@[k] == CONTENT(k)
     }
+}
+
+// HashMap<Id, u32> as far as remove_not_in_list uses it
+pub struct VSizeMap { pub m: Ghost<Map<Id, u32>> }
+impl VSizeMap {
+    pub open spec fn view(&self) -> Map<Id, u32> { self.m@ }
+    #[verifier::external_body]
+    pub fn remove(&mut self, id: &Id) -> (r: Option<u32>)
+        ensures final(self)@ == old(self)@.remove(*id),
+            old(self)@.dom().contains(*id) ==> r == Some(old(self)@[*id]), !old(self)@.dom().contains(*id) ==> r is None,
+    { unimplemented!() }
+    // .keys(): the keys in some order
+    #[verifier::external_body]
+    pub fn vkeys(&self) -> (r: Vec<Id>)
+        ensures forall|id: Id| #![trigger self@.dom().contains(id)] self@.dom().contains(id) <==> r@.contains(id),
+    { unimplemented!() }
 }
